@@ -316,7 +316,7 @@ func TestVerifC19Scoped(t *testing.T) {
 		return
 	}
 	var evs []vkScEv
-	scopes := []int{0, 16, 24, 32}
+	scopes := []int{0, 16, 24, 33}
 	if c.Thorough() {
 		scopes = []int{0, 8, 16, 20, 21, 24, 25, 32, 33}
 	}
